@@ -299,7 +299,7 @@ def main():
             import mutants
             if mutants.capture_argv(args.repo):
                 try:
-                    ms = mutants.mutants_for(prop)
+                    ms = mutants.mutants_for(prop, with_seeded=True)
                 except ModuleNotFoundError:
                     ms = []
                 base = set(r.key for r in uviol)
